@@ -198,7 +198,12 @@ def note_alphabet(tier):
         for d in durs:
             for p in pitches:
                 notes.append((on, round(on + d, 10), p))
-    return notes      # 18 notes: onset gaps 0.05 (exactly the tolerance), 0.06, 0.01; offset gaps likewise
+    # 18 notes: onset gaps 0.05 (exactly the tolerance), 0.06, 0.01; offset gaps likewise.  Plus notes whose OFFSET
+    # distance to a lattice note is exactly the offset tolerance while onset and pitch are strictly inside
+    # (ref [0,1] tol 0.2 vs est [0,1.2] / [0,0.8]; ref [0,.25] tol .05 vs est [0,.30]) - decides strict on the
+    # offset criterion alone
+    notes += [(0.0, 0.3, pitches[0]), (0.0, 1.2, pitches[0]), (0.0, 0.8, pitches[1]), (0.04, 0.29, pitches[0])]
+    return notes
 
 
 def _cents(p, q):
@@ -316,6 +321,10 @@ def shard_notes(arg):
                     acc.nontrivial += 1
                 if any(lib.d4(abs(Fr(r[0]) - Fr(e[0]))) == cfg[0] for r in ref for e in est):
                     acc.counters["notes.onset_distance_exactly_tolerance"] += 1
+                if cfg[2] is not None and any(
+                        lib.d4(abs(Fr(r[1]) - Fr(e[1]))) == max(cfg[2] * (r[1] - r[0]), cfg[3])
+                        and lib.d4(abs(Fr(r[0]) - Fr(e[0]))) < cfg[0] for r in ref for e in est):
+                    acc.counters["notes.offset_exactly_tolerance_onset_strictly_inside"] += 1
                 for fn in ("match_notes", "match_note_onsets", "match_note_offsets"):
                     check_notes(acc, fn, ref, est, *cfg)
                     if len(est) >= 2 and est[0] != est[-1]:
@@ -486,6 +495,7 @@ def run(run):
     run.explore("multipitch-frames", mod, "shard_mpframe",
                 [(ch, fr, [0.25, 0.5, 1.0]) for ch in core.chunks(fr, 32)])
     run.require_nonvacuous("events.distance_exactly_window", "events.duplicates",
-                           "notes.onset_distance_exactly_tolerance")
+                           "notes.onset_distance_exactly_tolerance",
+                           "notes.offset_exactly_tolerance_onset_strictly_inside")
     if run.total.counters.get("notes.pitch_near_threshold_excluded", 0):
         raise core.HarnessError("pitch lattice has a near-threshold pair")
